@@ -530,9 +530,9 @@ public:
     switch (f)
     {
     case cpp_format:     return "double(std::string(%%1%%).length())";
-    case mql_format:     return            "StringLen(%%1%%)";
+    case mql_format:     return  "((double)StringLen(%%1%%))";
     case python_format:  return                  "len(%%1%%)";
-    default:             return               "strlen(%%1%%)";
+    default:             return     "((double)strlen(%%1%%))";
     }
   }
 
